@@ -484,3 +484,39 @@ func earlyExits(f *ssa.Function) map[*ssa.Return]*ssa.BasicBlock {
 	}
 	return out
 }
+
+// factsOnEveryEntry: does pred hold for the facts known on every way into
+// block b? (For a join of `A || B` branches no single edge dominates the
+// block; each entering edge is examined with the facts of its source.)
+func factsOnEveryEntry(b *ssa.BasicBlock, pred func(map[string]bool) bool, depth int) bool {
+	if len(b.Instrs) > 0 && pred(factsAt(b.Instrs[0])) {
+		return true
+	}
+	if depth <= 0 || len(b.Preds) == 0 {
+		return false
+	}
+	for _, p := range b.Preds {
+		have := map[string]bool{}
+		if len(p.Instrs) > 0 {
+			for ft := range factsAt(p.Instrs[len(p.Instrs)-1]) {
+				have[ft] = true
+			}
+			if iff, ok := p.Instrs[len(p.Instrs)-1].(*ssa.If); ok {
+				for i, s := range p.Succs {
+					if s == b {
+						for _, ft := range edgeFacts(iff, i) {
+							have[ft] = true
+						}
+					}
+				}
+			}
+		}
+		if pred(have) {
+			continue
+		}
+		if !factsOnEveryEntry(p, pred, depth-1) {
+			return false
+		}
+	}
+	return true
+}
